@@ -1,6 +1,6 @@
 (* C13 - index queries equal a sorted, filtered, windowed scan of the store.
    Only statements; every proof is `exact <lemma of Index/Proofs.v>`. *)
-From GoRes Require Import Index.Proofs.
+From GoRes Require Import Index.Proofs Index.RunCommon Index.InitStep.
 Open Scope N_scope.
 
 (* After ANY mutation history (creates, updates changing or keeping keys,
@@ -93,6 +93,30 @@ Theorem nul_key_order_refuted :
     fetch_collection d q <> FOk (spec_query q (entries_of ix st)).
 Proof. exact nul_key_order_refuted_pf. Qed.
 
+(* Store.Init as a history step (SInit of Index/RunCommon.v, the step the harness histories contain): on an
+   initialised store it produces no mutation; otherwise one create per seed, of which exactly those whose id holds
+   no value take effect - each once, in seed order - and the store is initialised afterwards *)
+Theorem init_step_writes_absent_only : forall (seeds : list (bytes * val)) (st : vstore val),
+  NoDup (map fst seeds) -> (forall p, In p seeds -> is_nil (fst p) = false) ->
+  flatten_steps true [SInit seeds] = ([], true) /\
+  flatten_steps false [SInit seeds] = (map seed_create seeds, true) /\
+  changes_of st (map seed_create seeds) = map seed_change (filter (seed_absent st) seeds) /\
+  NoDup (map (fun c => fst (fst c)) (changes_of st (map seed_create seeds))).
+Proof. exact init_step_writes_absent_only_pf. Qed.
+
+(* the index invariant and query_spec hold after any history containing Init steps *)
+Theorem init_step_preserves_invariant : forall (ixs : list (index val)) ncb (steps : list step) inited st d es,
+  names_ok ixs ->
+  muts_ids_nul_free (fst (flatten_steps inited steps)) = true ->
+  run_history ixs ncb (fst (flatten_steps inited steps)) = (st, d, es) ->
+  index_state ixs st d /\
+  forall q : iquery val, In (qidx q) ixs ->
+    entries_nul_free (entries_of (qidx q) st) = true ->
+    (qrev q = true -> db_bytes_ok d = true) ->
+    ((qlimit q < 0)%Z -> (Z.of_nat (length d) < max_int)%Z) ->
+    fetch_collection d q = FOk (spec_query q (entries_of (qidx q) st)).
+Proof. exact init_step_preserves_invariant_pf. Qed.
+
 (* ---- non-vacuity ---- *)
 (* byte strings are written as ASCII codes: "k" = [107], "a" = [97], "1" = [49] ... *)
 Definition ex_ix1 : index (bytes * option bytes)%type := Index [107] (fun v => Some (fst v)).
@@ -131,6 +155,16 @@ Example successor_neighbour_nonvacuous :
   fetch_collection d' (IQ ex_ix1 [] None 0%Z (-1)%Z true) = fetch_collection d (IQ ex_ix1 [] None 0%Z (-1)%Z true) /\
   fetch_collection d' (IQ ex_ix1 [] None 0%Z 2%Z true) = FOk [[50]; [51]].
 Proof. vm_compute. repeat split. do 4 right. left. reflexivity. Qed.
+
+(* an Init whose seeds name an existing id (other key) and a new one: only the new one is written *)
+Example init_step_nonvacuous :
+  let steps := [SMut (MCreate [49] ([97], None)); SInit [([49], ([122], None)); ([50], ([98], Some [120]))];
+                SInit [([51], ([99], None))]] in
+  let '(st, d, _) := run_history idxs 0 (fst (flatten_steps false steps)) in
+  length (fst (flatten_steps false steps)) = 3%nat /\
+  st_get [49] st = Some ([97], None) /\ st_get [50] st = Some ([98], Some [120]) /\ st_get [51] st = None /\
+  fetch_collection d (to_iq (QD 0 [] 0 0%Z (-1)%Z false)) = FOk [[49]; [50]].
+Proof. vm_compute. repeat split. Qed.
 
 Example flush_nonvacuous : exists s,
   tq_run (tq_init 256) [LDo (TIndex 0); LPop; LDo (TSentinel 0); LFinish; LPop; LFinish; LFlushReturn 0] = Some s /\
